@@ -42,6 +42,10 @@ type ConPlan struct {
 	Armed  []string  `json:"armed"`
 	Stay   float64   `json:"stay"`
 	Serial bool      `json:"serial,omitempty"`
+	// Quiet (C15 under schedules): nothing supersedes a version during the
+	// concurrent phase, so the end balance of the references can be judged
+	// exactly (no known finding F12 in play).
+	Quiet bool `json:"quiet,omitempty"`
 }
 
 // Ev is one recorded operation of the history.
@@ -252,6 +256,10 @@ func (c *conRun) execOne(store *gkvlite.Store, op ConOp, ev *Ev) {
 			if it != nil {
 				ev.Found = true
 				ev.Items = []MItem{{K: cloneBytes(it.Key), V: cloneBytes(it.Val), P: it.Priority}}
+				if c.h.CB&CBRef != 0 {
+					// the caller owns one reference on a returned item
+					c.w.Ledger.Harness[it]++
+				}
 			}
 		})
 	case "exist":
